@@ -367,6 +367,15 @@ func (h *Handshaker) ReplayBlocks(
 		}
 	}
 
+	// The first block of the chain has height InitialHeight, so a state that has
+	// not applied any block yet stands for height InitialHeight-1 in the
+	// comparisons with the store and app heights below (otherwise a crash between
+	// saving the first block and saving the state could never be recovered from
+	// when InitialHeight > 1).
+	if stateBlockHeight == 0 && state.InitialHeight > 1 {
+		stateBlockHeight = state.InitialHeight - 1
+	}
+
 	// First handle edge cases and constraints on the storeBlockHeight and storeBlockBase.
 	switch {
 	case storeBlockHeight == 0:
